@@ -18,6 +18,12 @@ Proved here, for every descriptor and every order of its entries:
   stored name/supertype/description/own features, restoring the names `self`/`type`, with user types sorted
   by name.
 
+The entries of the normalised descriptor (`effective d0`, `normalize`) are what the reader makes of the declarations:
+EVERY text stripped of surrounding whitespace (type name, supertype name, feature name, range, element type,
+descriptions — `_get_elem_as_str`; `strip` is `str.strip()`), then the declarations keyed by the stripped name (a later
+declaration of a name replaces an earlier one, features accumulate).  The statements below quantify over these entries
+and are unchanged by the repair of the model that made it strip names as well as descriptions.
+
 NOT proved: `toDescriptor (load (toDescriptor ts)) = toDescriptor ts` as one equation and that *success* of a
 load is independent of the order (partial; both are checked per run on implementation and model).
 -/
